@@ -15,6 +15,10 @@ for f in repo.all_functions():
     if f.parent is None:
         h, order = describe(f.node)
         out[f.qual] = {"hash": h, "locals": order, "sigs": local_sigs(f.node)}
+from sa.core.align import attribute_sigs, module_name_sigs
+trees = {m.name: m.tree for m in repo.modules.values()}
+out["__attrs__"] = attribute_sigs(trees)
+out["__modnames__"] = module_name_sigs(trees)
 REF_FILE.write_text(json.dumps(out, indent=0, sort_keys=True))
 import subprocess
 head = subprocess.run(["git", "-C", "/repo", "rev-parse", "HEAD"], capture_output=True, text=True).stdout.strip()
